@@ -120,6 +120,19 @@ type env struct {
 	tclosed  map[string]bool
 	evict    bool // eviction region: target stores are closed / re-created while the source family objects live on
 	boundary bool // the source days lie on both sides of a target-segment boundary (month end / year end)
+	// round 12: a flush committed WHILE a rollup job runs (from inside the commit hook, i.e. between two
+	// committed records of the job); wrng = random stream of this region only (independent of rng)
+	wrng  *rand.Rand
+	weave *weaveReq
+}
+
+// weaveReq: flush fd into source family h immediately before the job commits its record number at.
+type weaveReq struct {
+	h     int
+	at    int
+	fd    fileData
+	fired bool
+	err   error
 }
 
 func (e *env) srcStorePath(di int) string {
@@ -281,6 +294,17 @@ func (e *env) canon(storePath, family string, logs []version.Log) rec {
 }
 
 func (e *env) onCommit(storePath, family string, _ version.FamilyID, logs []version.Log) {
+	if w := e.weave; w != nil && !w.fired {
+		e.mu.Lock()
+		n := len(e.cur)
+		e.mu.Unlock()
+		if n == w.at {
+			// the rollup job is about to commit its record number `at`: a complete real flush (sst file +
+			// manifest record) of the source store happens first; its commit re-enters this hook
+			w.fired = true
+			w.err = writeFile(e.fams[w.h], w.fd)
+		}
+	}
 	e.mu.Lock()
 	defer e.mu.Unlock()
 	if e.cutAt >= 0 && !e.imaged && len(e.cur) == e.cutAt {
@@ -643,6 +667,39 @@ func (e *env) opRollup(h int, cut int, viaStore bool) error {
 	imaged := e.imaged
 	e.cur, e.cutAt = nil, -1
 	e.mu.Unlock()
+	w := e.weave
+	e.weave = nil
+	wAt := -1
+	if w != nil && w.fired {
+		if w.err != nil {
+			return w.err
+		}
+		for i, r := range recs {
+			if r.kind == 'F' {
+				if wAt >= 0 || len(r.keys) != 1 {
+					e.c.Fail("flush-record-shape", "flush inside a rollup run committed "+r.text)
+					return fmt.Errorf("unexpected flush records inside a rollup run")
+				}
+				wAt = i
+			}
+		}
+		if wAt < 0 {
+			e.c.Fail("flush-record-shape", "flush inside a rollup run committed no record")
+			return fmt.Errorf("flush inside a rollup run committed no record")
+		}
+		k := recs[wAt].keys[0]
+		e.files[k] = w.fd
+		e.order = append(e.order, k)
+		e.c.Branch(fmt.Sprintf("flush-inside-rollup-before-%c", func() byte {
+			if wAt+1 < len(recs) {
+				return recs[wAt+1].kind
+			}
+			return '-'
+		}()))
+		if w.h == h {
+			e.c.Branch("flush-inside-rollup-same-family")
+		}
+	}
 	// observed orders
 	var ivs, dvs []int64
 	seen := map[int64]bool{}
@@ -713,9 +770,29 @@ func (e *env) opRollup(h int, cut int, viaStore bool) error {
 	if rs == "" {
 		rs = "-"
 	}
+	if wAt >= 0 {
+		k := recs[wAt].keys[0]
+		toks := make([]string, len(w.fd))
+		for i := range w.fd {
+			toks[i] = w.fd[i].token()
+		}
+		ne := 0
+		if len(w.fd) > 0 {
+			ne = 1
+		}
+		e.c.Op(fmt.Sprintf("rollupw %d ivs=%s dvs=%s avail=%s at=%d %d %d %d | %s", h, joinInts(ivs), joinInts(dvs), joinInts(av),
+			wAt, w.h, k.file, ne, strings.Join(toks, " ")), "recs="+rs+" "+e.stateString())
+		e.checkOnce()
+		return nil
+	}
 	e.c.Op(fmt.Sprintf("rollup %d ivs=%s dvs=%s avail=%s cut=%s", h, joinInts(ivs), joinInts(dvs), joinInts(av), cutTxt),
 		"recs="+rs+" "+e.stateString())
 	e.checkOnce()
+	if w != nil && !w.fired {
+		// the job committed fewer records than planned: the flush happens after it
+		e.c.Branch("flush-inside-rollup-not-reached")
+		return e.opFlush(w.h, w.fd)
+	}
 	return nil
 }
 
@@ -1460,6 +1537,19 @@ func (e *env) storeCase() error {
 					cut, via = -1, false
 				}
 			}
+			if e.wrng != nil && cut < 0 && !via && e.armFault == nil && !e.big && e.wrng.Intn(3) == 0 {
+				// round 12: one flush is committed between two records of this run (same source store; 2/3
+				// into the very family that is being rolled up)
+				wh := h
+				if e.wrng.Intn(3) == 0 {
+					wh = e.hours[e.wrng.Intn(len(e.hours))]
+				}
+				main := e.rng
+				e.rng = e.wrng
+				fd := e.genFile(wh)
+				e.rng = main
+				e.weave = &weaveReq{h: wh, at: e.wrng.Intn(2 + len(e.tgts)), fd: fd}
+			}
 			if err := e.opRollup(h, cut, via); err != nil {
 				return err
 			}
@@ -1712,6 +1802,9 @@ func (a area) Run(c *core.Ctx) error {
 		e, err := newEnv(c, rng)
 		if err != nil {
 			return err
+		}
+		if !conc {
+			e.wrng = rand.New(rand.NewSource(c.Rng(i).Int63() ^ 0x77656176))
 		}
 		kv.VerifInstallCommitHook(e.onCommit)
 		func() {
